@@ -7,6 +7,7 @@ import (
 	"os"
 	"os/exec"
 	"path/filepath"
+	"regexp"
 	"strings"
 	"sync"
 
@@ -25,9 +26,17 @@ type variantSpec struct {
 	File   string   `json:"file"` // relative to the repository root
 	Old    string   `json:"old"`
 	New    string   `json:"new"`
-	Edits  []vEdit  `json:"edits,omitempty"` // additional edits (possibly other files)
+	Edits  []vEdit  `json:"edits,omitempty"`  // additional edits (possibly other files)
 	Expect []string `json:"expect,omitempty"` // rule ids (any of) that must fire for a breaking variant
 	Note   string   `json:"note,omitempty"`
+}
+
+// patchVariant: a unified diff kept under /verif (seeded mutant or the reverse of a repaired defect).
+type patchVariant struct {
+	Name   string
+	Path   string
+	Expect string // "detected" | "missed"
+	Note   string
 }
 
 type vEdit struct {
@@ -62,7 +71,8 @@ func loadVariants(verif, prop string) []variantSpec {
 // runVariants: thorough-tier both-ways self-check.
 func runVariants(prop, repo, verif string) []variantResult {
 	specs := loadVariants(verif, prop)
-	if len(specs) == 0 {
+	patches := loadPatchVariants(verif, prop)
+	if len(specs) == 0 && len(patches) == 0 {
 		return nil
 	}
 	self, err := os.Executable()
@@ -74,9 +84,19 @@ func runVariants(prop, repo, verif string) []variantResult {
 		fatalf("tempdir: %v", err)
 	}
 	defer os.RemoveAll(tmp)
-	results := make([]variantResult, len(specs))
+	results := make([]variantResult, len(specs)+len(patches))
 	sem := make(chan struct{}, 5)
 	var wg sync.WaitGroup
+	for i, pv := range patches {
+		i, pv := i, pv
+		wg.Add(1)
+		go func() {
+			defer wg.Done()
+			sem <- struct{}{}
+			defer func() { <-sem }()
+			results[len(specs)+i] = runPatchVariant(self, prop, repo, verif, tmp, len(specs)+i, pv)
+		}()
+	}
 	for i, v := range specs {
 		i, v := i, v
 		wg.Add(1)
@@ -191,4 +211,95 @@ func uniq(xs []string) []string {
 		}
 	}
 	return out
+}
+
+func loadPatchVariants(verif, prop string) []patchVariant {
+	var out []patchVariant
+	// seeded mutants of this property
+	dirs, _ := filepath.Glob(filepath.Join(verif, "seeded", prop+"-*"))
+	for _, d := range dirs {
+		pv := patchVariant{Name: "seeded/" + filepath.Base(d), Path: filepath.Join(d, "patch.diff"), Expect: "detected"}
+		if b, err := os.ReadFile(filepath.Join(d, "meta.json")); err == nil {
+			var m struct {
+				Expected string `json:"expected_by_static_check"`
+				Note     string `json:"why_not_detected"`
+			}
+			if json.Unmarshal(b, &m) == nil && m.Expected == "missed" {
+				pv.Expect, pv.Note = "missed", m.Note
+			}
+		}
+		out = append(out, pv)
+	}
+	// regressions of repaired defects that this property's check must report
+	regs, _ := filepath.Glob(filepath.Join(verif, "regressions", "*", "meta.json"))
+	for _, mf := range regs {
+		b, err := os.ReadFile(mf)
+		if err != nil {
+			continue
+		}
+		var m struct {
+			Must []string `json:"must_be_reported_by"`
+		}
+		if json.Unmarshal(b, &m) != nil {
+			continue
+		}
+		for _, p := range m.Must {
+			if p == prop {
+				out = append(out, patchVariant{Name: "regression/" + filepath.Base(filepath.Dir(mf)), Path: filepath.Join(filepath.Dir(mf), "patch.diff"), Expect: "detected"})
+			}
+		}
+	}
+	return out
+}
+
+var patchFileRe = regexp.MustCompile(`(?m)^\+\+\+ b/(\S+)`)
+
+func runPatchVariant(self, prop, repo, verif, tmp string, idx int, pv patchVariant) variantResult {
+	res := variantResult{Name: pv.Name, Kind: "breaking", Expected: pv.Expect}
+	diff, err := os.ReadFile(pv.Path)
+	if err != nil {
+		res.Got, res.OK = "stale: patch missing", true
+		return res
+	}
+	dir := filepath.Join(tmp, fmt.Sprintf("p%d", idx))
+	var pairs []string
+	for _, m := range patchFileRe.FindAllStringSubmatch(string(diff), -1) {
+		rel := m[1]
+		src, err := os.ReadFile(filepath.Join(repo, rel))
+		dst := filepath.Join(dir, rel)
+		os.MkdirAll(filepath.Dir(dst), 0o755)
+		if err == nil {
+			os.WriteFile(dst, src, 0o644)
+		}
+		pairs = append(pairs, filepath.Join(repo, rel)+"="+dst)
+	}
+	if out, err := exec.Command("patch", "-p1", "-s", "-f", "-d", dir, "-i", pv.Path).CombinedOutput(); err != nil {
+		_ = out
+		res.Got, res.OK = "stale: patch no longer applies to the current tree", true
+		return res
+	}
+	cmd := exec.Command(self, "-prop", prop, "-tier", "quick", "-repo", repo, "-verif", verif, "-noevidence", "-overlay", strings.Join(pairs, ","))
+	out, _ := cmd.CombinedOutput()
+	code := cmd.ProcessState.ExitCode()
+	var fired []string
+	for _, line := range strings.Split(string(out), "\n") {
+		if strings.HasPrefix(line, "FAIL ") {
+			if f := strings.Fields(line); len(f) > 1 {
+				fired = append(fired, f[1])
+			}
+		}
+	}
+	switch {
+	case code == 2:
+		res.Got = "checker error: " + firstLine(string(out))
+		// a mutant that no longer type-checks is not a verdict either way
+		res.OK = strings.Contains(string(out), "load/type error")
+	case len(fired) > 0:
+		res.Got = "detected by " + strings.Join(uniq(fired), ",")
+		res.OK = true // detecting a mutant recorded as 'missed' is an improvement, not an error
+	default:
+		res.Got = "missed"
+		res.OK = pv.Expect == "missed"
+	}
+	return res
 }
